@@ -277,6 +277,15 @@ class MAAdapter(Adapter):
                     obs['product'] = a.dot(w[dst]).data
             elif act == 'GetCopy':
                 w[dst] = a.get_copy()
+                # ... and of an object that wraps memory it cannot write to (a broadcast constant, a read-only table): the copy
+                # is an independent, writable array all the same
+                ro = MatrixArray(length=w['L'], rank=w['R'], data=np.broadcast_to(np.asarray(a.data[0]), a.data.shape), space=a.space, types=a.types)
+                rc = ro.get_copy()
+                try:
+                    rc *= 2.0
+                    obs['ro_copy_ok'] = bool(not np.shares_memory(rc.data, ro.data) and np.array_equal(rc.data, 2.0 * np.asarray(ro.data)))
+                except ValueError:
+                    obs['ro_copy_ok'] = False
             elif act == 'Wrap':
                 w['Z'] = MatrixArray(length=w['L'], rank=w['R'], data=a.data, space=a.space, types=a.types)
             elif act == 'SetItem':
@@ -339,6 +348,8 @@ class MAAdapter(Adapter):
             out.append(('SetItemSymmetric', {'what': 'a[t1,t2] = v is not readable from both (t1,t2) and (t2,t1)'}))
         if obs.get('returns_self') is False:
             out.append(('InPlaceReturnsSelf', {}))
+        if obs.get('ro_copy_ok') is False:
+            out.append(('NoAlias.get_copy', {'what': 'get_copy() of an object that wraps read-only memory shares that memory (or is not writable)'}))
         if obs['ref_raises'] != label['raises']:
             raise MachineryError('reference interpreter disagrees with TLC on raises: %r' % (label,))
         if 'product' in obs and obs['raises'] == '':
